@@ -91,7 +91,7 @@ def decAct : List String → Option Act
 
 structure DState where
   srv : Srv
-  bb : BBot
+  fb : FBot
   ob : Option Str := none
 
 def excStr : Exc → String
@@ -104,21 +104,32 @@ def encMsgs (ms : List Msg) : String :=
 
 def dumpBB (bb : BBot) : String := dumpBot bb.bot ++ " B=" ++ encSet bb.batches.eraseDups
 
+/-- … and who is identified from where -/
+def dumpFB (fb : FBot) : String :=
+  dumpBB fb.bb ++ " A=" ++ ";".intercalate (sortS (fb.db.map fun u => enc u.name ++ ":" ++ encSet u.auth))
+
+/-- a database entry `name mask` (identified from `mask`) -/
+def decDbUser (e : Str) : DbUser :=
+  match splitChar ' ' e with
+  | [n, m] => ⟨n, [m]⟩
+  | n :: _ => ⟨n, []⟩
+  | [] => ⟨[], []⟩
+
 def encBEv : BEv → String
   | .plain e => encEv e
   | .tagged ref m => "T" ++ enc ref ++ ":" ++ enc m.pfx ++ ":" ++ enc m.cmd ++ ":" ++ encList m.args
 
 /-- feed the events one by one, collecting the bot dump (and what the bot sends) after each -/
-def feedDump (bb : BBot) : List BEv → BBot × List String × List Msg
-  | [] => (bb, [], [])
+def feedDump (fb : FBot) : List BEv → FBot × List String × List Msg
+  | [] => (fb, [], [])
   | e :: es =>
     let out := match e with
-      | .plain (.msg m) => bb.bot.out m
-      | .tagged _ m => bb.bot.out m
+      | .plain (.msg m) => fb.bb.bot.out m
+      | .tagged _ m => fb.bb.bot.out m
       | .plain .reset => []
-    let b1 := bb.recv e
+    let b1 := fb.recv e
     let r := feedDump b1 es
-    (r.1, (dumpBB b1 ++ " O=" ++ encMsgs out) :: r.2.1, out ++ r.2.2)
+    (r.1, (dumpFB b1 ++ " O=" ++ encMsgs out) :: r.2.1, out ++ r.2.2)
 
 def defaultCfg : Cfg :=
   { server := "irc.srv".toList, multiPrefix := true, uhnames := false, extJoin := false, chghost := true,
@@ -127,7 +138,7 @@ def defaultCfg : Cfg :=
 
 def runBAct (st : DState) (a : BAct) : DState × String :=
   let r := bstep st.srv st.ob a
-  let fd := feedDump st.bb r.2.2
+  let fd := feedDump st.fb r.2.2
   let s1 := r.1.enqueue fd.2.2
   (⟨s1, fd.1, r.2.1⟩,
     (if r.2.2.isEmpty then "-" else "|".intercalate (r.2.2.map encBEv)) ++ "\t" ++
@@ -135,13 +146,15 @@ def runBAct (st : DState) (a : BAct) : DState × String :=
     " OB=" ++ encOpt r.2.1)
 
 def step (st : DState) : List String → DState × String
-  | ["init", server, mp, uh, ej, ch, wx, bt, n, i, h, npl, ct, cl] =>
-    match dec server, decBool mp, decBool uh, decBool ej, decBool ch, decBool wx, decBool bt, dec n, dec i, dec h, npl.toNat?, dec ct, dec cl with
-    | some server, some mp, some uh, some ej, some ch, some wx, some bt, some n, some i, some h, some npl, some ct, some cl =>
+  | ["init", server, mp, uh, ej, ch, wx, bt, n, i, h, npl, ct, cl, fo, db] =>
+    match dec server, decBool mp, decBool uh, decBool ej, decBool ch, decBool wx, decBool bt, dec n, dec i, dec h, npl.toNat?, dec ct, dec cl,
+        decBool fo, decList db with
+    | some server, some mp, some uh, some ej, some ch, some wx, some bt, some n, some i, some h, some npl, some ct, some cl, some fo, some db =>
       let cfg : Cfg := ⟨server, mp, uh, ej, ch, wx, bt, n, i, h, npl, ct, cl⟩
-      if cfg.valid then (⟨Srv.init cfg, ⟨Bot.init n i, []⟩, none⟩, "ok " ++ dumpBB ⟨Bot.init n i, []⟩ ++ "\t" ++ dumpSrv (Srv.init cfg) ++ " OB=~")
+      let fb : FBot := ⟨⟨Bot.init n i, []⟩, fo, db.map decDbUser⟩
+      if cfg.valid then (⟨Srv.init cfg, fb, none⟩, "ok " ++ dumpFB fb ++ "\t" ++ dumpSrv (Srv.init cfg) ++ " OB=~")
       else (st, "bad-cfg")
-    | _, _, _, _, _, _, _, _, _, _, _, _, _ => (st, "bad-op")
+    | _, _, _, _, _, _, _, _, _, _, _, _, _, _, _ => (st, "bad-op")
   | ["act", "batchopen", ref, ty, args] =>
     match dec ref, dec ty, decList args with
     | some ref, some ty, some args => runBAct st (.batchOpen ref ty args)
@@ -154,8 +167,8 @@ def step (st : DState) : List String → DState × String
   | ["msg", p, c, a, t] =>
     match dec p, dec c, decList a, decOpt t with
     | some p, some c, some a, some t =>
-      let r := st.bb.feed t ⟨p, c, a⟩
-      (⟨st.srv, r.1, st.ob⟩, excStr r.2 ++ "\t" ++ dumpBB r.1 ++ " O=" ++ encMsgs (st.bb.bot.out ⟨p, c, a⟩))
+      let r := st.fb.feed t ⟨p, c, a⟩
+      (⟨st.srv, r.1, st.ob⟩, excStr r.2 ++ "\t" ++ dumpFB r.1 ++ " O=" ++ encMsgs (st.fb.bb.bot.out ⟨p, c, a⟩))
     | _, _, _, _ => (st, "bad-op")
   | ["lower", s] => (st, match dec s with | some s => enc (lower s) | none => "bad-op")
   | ["ishm", s] => (st, match dec s with
@@ -170,5 +183,5 @@ def step (st : DState) : List String → DState × String
   | _ => (st, "bad-op")
 
 def handler : Driver.Handler :=
-  { σ := DState, init := ⟨Srv.init defaultCfg, ⟨Bot.init defaultCfg.botNick defaultCfg.botIdent, []⟩, none⟩, step := step }
+  { σ := DState, init := ⟨Srv.init defaultCfg, ⟨⟨Bot.init defaultCfg.botNick defaultCfg.botIdent, []⟩, false, []⟩, none⟩, step := step }
 end C10
